@@ -11,6 +11,8 @@ import time
 STATE = None
 _INSTALLED = False
 PASS_CLASSES = {}
+CONVENTION_AFTER = ("FunctionInlinerPass", "DretDesugarPass", "InternalReturnCopyForwardingPass", "ReadonlyInvokeArgCopyForwardingPass",
+                    "MakeSSA", "Mem2Var", "RemoveUnusedVariablesPass", "SimplifyCFGPass")
 
 
 class State:
@@ -92,6 +94,8 @@ def _recorded(st, orig, name, self, a, k):
     if fn is not None:
         if name == "MakeSSA":
             st.ssa[fname] = True
+        elif name == "Mem2Var":
+            st.ssa[fname] = False       # promoted allocas are multiply assigned until the following MakeSSA
         elif name == "FmpLoweringPass":
             st.ssa[fname] = False
             st.lowered[fname] = True
@@ -100,6 +104,19 @@ def _recorded(st, orig, name, self, a, k):
         for f in fns:
             for chk, err in wf_errors(f, st.ssa.get(str(f.name), False)):
                 st.wf_errors.append({"pass": name, "fn": str(f.name), "idx": idx, "check": chk, "error": err[:600]})
+            st.n_wf_checks += 1
+        if name in CONVENTION_AFTER and not st.lowered.get(fname):
+            # whole-context calling-convention check of check_venom.py (the pipeline itself only runs it before the
+            # first pass); not applicable once a function is FMP-lowered (check_post_lowering takes over)
+            from vyper.venom.check_venom import find_calling_convention_errors
+            c = fn.ctx if fn is not None else self.ctx
+            try:
+                for e in find_calling_convention_errors(c)[:3]:
+                    st.wf_errors.append({"pass": name, "fn": fname, "idx": idx, "check": "check_venom.calling_convention." + type(e).__name__,
+                                         "error": str(e)[:600]})
+            except Exception as e:  # noqa
+                st.wf_errors.append({"pass": name, "fn": fname, "idx": idx, "check": "check_venom.calling_convention.exception",
+                                     "error": f"{type(e).__name__}: {e}"[:600]})
             st.n_wf_checks += 1
     return r
 
@@ -112,12 +129,29 @@ def wf_errors(fn, ssa):
     from vyper.venom.basicblock import IRLabel, IRVariable
     from vyper.venom.check_venom import find_semantic_errors_fn
     errs = []
+    labels = {bb.label.value for bb in fn.get_basic_blocks()}
+    # reachability from the entry block (a pass may leave unreachable blocks behind for SimplifyCFG; code in them is
+    # never executed, so only structural checks apply there)
+    succ = {}
+    for bb in fn.get_basic_blocks():
+        t = bb.instructions[-1] if bb.instructions else None
+        succ[bb.label.value] = [op.value for op in t.operands if isinstance(op, IRLabel) and op.value in labels] \
+            if t is not None and t.opcode in ("jmp", "jnz", "djmp") else []
+    reach, work = set(), [fn.entry.label.value]
+    while work:
+        x = work.pop()
+        if x in reach:
+            continue
+        reach.add(x)
+        work += succ.get(x, [])
     try:
         for e in find_semantic_errors_fn(fn):
+            inst = getattr(e, "inst", None)
+            if inst is not None and inst.parent.label.value not in reach:
+                continue
             errs.append(("check_venom." + type(e).__name__, str(e)))
     except Exception as e:  # noqa
         errs.append(("check_venom.exception", f"{type(e).__name__}: {e}"))
-    labels = {bb.label.value for bb in fn.get_basic_blocks()}
     preds = {bb.label.value: set() for bb in fn.get_basic_blocks()}
     defs = {}
     for bb in fn.get_basic_blocks():
@@ -140,13 +174,15 @@ def wf_errors(fn, ssa):
                         continue
                     if op.value not in labels:
                         errs.append(("branch-target-missing", f"{bb.label.value}: {t}"))
-                    else:
+                    elif bb.label.value in reach:
                         preds[op.value].add(bb.label.value)
     if ssa:
         for v, ds in defs.items():
             if len(ds) > 1:
                 errs.append(("ssa-multiple-definition", f"{v}: " + " | ".join(ds[:3])))
     for bb in fn.get_basic_blocks():
+        if bb.label.value not in reach:
+            continue
         for inst in bb.instructions:
             if inst.opcode != "phi":
                 continue
@@ -165,6 +201,8 @@ def wf_errors(fn, ssa):
 
 # ------------------------------------------------------------------ print/parse round trip
 _COMMENT = re.compile(r";[^\n]*")
+_BOOL_T = re.compile(r"(?<=[ ,])True\b")
+_BOOL_F = re.compile(r"(?<=[ ,])False\b")
 
 
 def normalize_text(t):
@@ -175,6 +213,7 @@ def normalize_text(t):
 def parse_roundtrip(text):
     """-> (status, detail): status in ok | unsupported | mismatch | not-idempotent"""
     from vyper.venom.parser import parse_venom
+    text = _BOOL_T.sub("1", _BOOL_F.sub("0", text))      # SCCP can create IRLiteral(True/False), printed as such
     try:
         ctx = parse_venom(text)
     except Exception as e:  # noqa
@@ -200,15 +239,29 @@ def _first_diff(a, b):
 
 
 # ------------------------------------------------------------------ compile under a state
-def compile_with(src, cfg, state, formats=("bytecode",)):
-    """compile with the real compiler while STATE is active; returns (out, state)"""
+class CompileTimeout(BaseException):
+    pass
+
+
+def _on_alarm(signum, frame):
+    raise CompileTimeout()
+
+
+def compile_with(src, cfg, state, formats=("bytecode",), limit=60):
+    """compile with the real compiler while STATE is active (wall-clock limit: a pipeline with a skipped pass may not
+    terminate); returns the compiler output dict"""
     global STATE
+    import signal
     from vlib.configs import compile_src
     install()
     STATE = state
+    old = signal.signal(signal.SIGALRM, _on_alarm)
+    signal.setitimer(signal.ITIMER_REAL, limit)
     try:
         out = compile_src(src, cfg, formats=formats)
     finally:
+        signal.setitimer(signal.ITIMER_REAL, 0)
+        signal.signal(signal.SIGALRM, old)
         STATE = None
     return out
 
